@@ -78,8 +78,14 @@ def ctr_iv(rng, mode, bs):
     """IV with the counter field at a boundary class."""
     w, be = CTR_FLAVORS[mode]
     cs = w // 8
-    cls = rng.choice(["zero", "one", "pow-1", "pow", "max-1", "max", "rand", "allff"])
-    if cls == "zero":
+    cls = rng.choice(["zero", "one", "pow-1", "pow", "max-1", "max", "rand", "allff", "carry", "carry"])
+    if cls == "carry":
+        # a few blocks below a carry out of the low 8/16/32/64 bits of the counter field (limb boundaries of
+        # multi-word counter arithmetic), high part random or all ones
+        h = rng.choice([x for x in (8, 16, 32, 64) if x < w] or [w // 2])
+        hi = rng.getrandbits(w - h) if rng.random() < 0.7 else 2 ** (w - h) - 1
+        f = (hi << h) | (2 ** h - 1 - rng.randrange(0, 12))
+    elif cls == "zero":
         f = 0
     elif cls == "one":
         f = 1
